@@ -17,10 +17,21 @@ applies=no; builds=no; suite=fail; demo_with=unknown; demo_without=unknown
 if git apply $src/patch.diff 2>/dev/null; then applies=yes; fi
 if [ $applies = yes ] && go build ./... 2>/dev/null && go vet ./... >/dev/null 2>&1 || go build ./... 2>/dev/null; then builds=yes; fi
 if [ $builds = yes ]; then
-  for try in 1 2 3; do
-    go test -vet=off -count=1 -timeout 25m ./... > $out/suite.log 2>&1 && { suite=pass; break; }
-  done
+  go test -vet=off -count=1 -timeout 25m ./... > $out/suite.log 2>&1 && suite=pass
   fails=$(grep -E '^--- FAIL' $out/suite.log | sort -u | tr '\n' ' ')
+  if [ $suite != pass ]; then
+    # several existing tests are timing based (Test_syncHead: "<1% of 1000 racing calls go through") and fail under
+    # machine load on the unchanged tree as well: re-run each failing top-level test alone, up to 10 times
+    suite="pass-after-rerun"
+    for t in $(grep -E '^--- FAIL: [A-Za-z_0-9]+ ' $out/suite.log | awk '{print $3}' | sort -u); do
+      ok=no
+      for try in 1 2 3 4 5 6 7 8 9 10; do
+        if go test -vet=off -count=1 -run "^$t\$" ./... >> $out/suite_rerun.log 2>&1; then ok=yes; break; fi
+      done
+      [ $ok = yes ] || suite=fail
+    done
+    if ! grep -qE '^--- FAIL' $out/suite.log; then suite=fail; fi
+  fi
   cp $src/demo_test.go $wt/$demo_rel
   (eval "$demo_cmd") > $out/demo_with_change.log 2>&1 && demo_with=pass || demo_with=fail
   git apply -R $src/patch.diff
